@@ -352,7 +352,55 @@ func main() {
 		}
 		_, gets := readAll(q, sent)
 		acked := int(q.AcknowledgedSeq()) + 1
-		q.Close()
+		// after the part the model follows (the reads above): the explicit index reset (SetAppendedSeq, what a follower runs
+		// on the leader's Reset) forward to a sequence nobody appended, a restart, one more append - off the model, judged on
+		// the reads alone: every successfully appended message that still lies above the acknowledged position reads back
+		// byte for byte, and the new message is the next sequence
+		resetProbe := ""
+		if !big && r.Chance(35) && len(sent) >= 1 {
+			before := map[int64]int{} // sequence -> content id of what is readable before the reset
+			for n := q.AcknowledgedSeq() + 1; n <= q.AppendedSeq(); n++ {
+				if b, err := q.Get(n); err == nil {
+					before[n] = identify(b, sent)
+				}
+			}
+			j := q.AppendedSeq() + int64(r.Range(1, 9))
+			q.SetAppendedSeq(j)
+			q.Close()
+			var err error
+			q, err = queue.NewQueue(dir, 0)
+			if err != nil {
+				resetProbe = "reopen after the reset: " + err.Error()
+			} else {
+				newID := nextID + 1000
+				n := r.Range(8, 90)
+				if _, err := doPut(q, newID, n, 0, false); err != nil {
+					resetProbe = "append after the reset: " + err.Error()
+				}
+				sent = append(sent, rec{newID, n})
+				if q.AppendedSeq() != j+1 {
+					resetProbe = fmt.Sprintf("reset to %d, restart, append: the appended position is %d", j, q.AppendedSeq())
+				}
+				if b, err := q.Get(j + 1); err != nil || identify(b, sent) != newID {
+					resetProbe = fmt.Sprintf("reset to %d, restart, append: Get(%d) does not return the appended message (err %v)", j, j+1, err)
+				}
+				for sq, want := range before {
+					if sq <= q.AcknowledgedSeq() {
+						continue
+					}
+					b, err := q.Get(sq)
+					if err != nil || identify(b, sent) != want {
+						resetProbe = fmt.Sprintf("reset to %d, restart, append: message %d lies above the acknowledged position %d and was readable before; now err %v, content of message %d",
+							j, sq, q.AcknowledgedSeq(), err, identify(b, sent))
+						break
+					}
+				}
+			}
+			out.Count("reset-restart-append-probes")
+		}
+		if q != nil {
+			q.Close()
+		}
 		_ = os.RemoveAll(dir)
 		idx := out.Case(map[string]interface{}{"kind": "history", "ops": ops, "big": big, "acknowledgements": acks, "acked_at_end": acked}, len(sent) >= 3 && len(sizes) >= 2 && crashes >= 1)
 		out.Count("history")
@@ -369,6 +417,9 @@ func main() {
 		var oc []string
 		for _, o := range ops {
 			oc = append(oc, o.coq())
+		}
+		if resetProbe != "" {
+			out.Violation(idx, "reset-restart-append", resetProbe, nil)
 		}
 		out.Check(idx, fmt.Sprintf("check_hist_acked %d %s %s %s", acked, vh.List(oc), vh.NatList(apps), vh.List(gets)))
 	}
